@@ -125,8 +125,10 @@ pub fn record_rewrite(a: &HashMap<String, String>) -> i32 {
                     0 => json!({"k": "any"}),
                     1 => {
                         let mut alts: Vec<&str> = vec![];
+                        // alternatives may themselves be parenthesised: ((株)|㈱)
+                        let altpool = ["a", "b", "名詞", "x-y", "c", "(株)", "(y)", "㈱"];
                         for _ in 0..(1 + rng.below(3)) {
-                            let x = *rng.pick(&alpha);
+                            let x = *rng.pick(&altpool);
                             if !alts.contains(&x) {
                                 alts.push(x);
                             }
@@ -218,13 +220,21 @@ fn tpl_text(t: &Value, side: char) -> String {
 /// T = {"uni": [tpl], "left": [tpl], "right": [tpl]} with |left| = |right|.
 pub fn feature_def(t: &Value) -> String {
     let mut s = String::from("# generated\n");
+    // lines as editors leave them: some indented, some with blanks or a tab after the last template
+    let mut k = 0usize;
+    let mut put = |s: &mut String, line: String| {
+        k += 1;
+        let lead = if (k + line.len()) % 5 == 0 { "  " } else { "" };
+        let trail = match (k + line.len()) % 4 { 0 => " ", 1 => "\t ", _ => "" };
+        s.push_str(&format!("{lead}{line}{trail}\n"));
+    };
     for u in t["uni"].as_array().unwrap() {
-        s.push_str(&format!("UNIGRAM {}\n", tpl_text(u, 'F')));
+        put(&mut s, format!("UNIGRAM {}", tpl_text(u, 'F')));
     }
     let l = t["left"].as_array().unwrap();
     let r = t["right"].as_array().unwrap();
     for (a, b) in l.iter().zip(r) {
-        s.push_str(&format!("BIGRAM {}/{}\n", tpl_text(a, 'L'), tpl_text(b, 'R')));
+        put(&mut s, format!("BIGRAM {}/{}", tpl_text(a, 'L'), tpl_text(b, 'R')));
     }
     s
 }
@@ -501,6 +511,12 @@ pub fn record_corpus(a: &HashMap<String, String>) -> i32 {
             l.iter().map(|p| p.to_string()).collect()
         }).collect();
         writeln!(f, "{}", corpus_event(&lines, i % 3 != 0, json!({}))).unwrap();
+        if i % 100 == 7 && i < 500 {
+            // one token whose surface is longer than 65535 bytes (a long run grouped into one unknown word)
+            let big: String = std::iter::repeat(if i % 200 == 7 { 'x' } else { 'あ' }).take(70000).collect();
+            let lines = vec![vec!["a".to_string(), "N".to_string()], vec![big, "名詞,長".to_string()], vec!["EOS".to_string()]];
+            writeln!(f, "{}", corpus_event(&lines, true, json!({}))).unwrap();
+        }
         if i % 25 == 0 {
             writeln!(f, "{}", corpus_invalid_event(&mut rng)).unwrap();
         }
